@@ -213,3 +213,15 @@ prop("C17",
      quick=dict(shards=2, timeout=400), thorough=dict(shards=16, timeout=1500), crash_is_violation=True,
      assumptions=COMMON + ["uploads are unshifted (sequence number = decode time / duration); the MediaLive-style renumbering path is not generated",
                            "the receiver's channel goroutine is observed through the build-tag hook verif_hooks.go (VerifQuiesce, VerifChannelState)"])
+
+prop("C19",
+     rule="rapid draws 1-4 channels x 2-8 tracks (video master, further video, audio, wvtt text), 2-6 segments per track, Streams() or per-segment "
+          "URLs, with/without Basic auth and per-representation configuration. Per case a sequential round-robin reference run, then 2-6 "
+          "concurrent runs on fresh receivers under the race detector: all first uploads (init segments) released by one barrier from separate "
+          "goroutines, then per segment number all tracks of all channels at once (as the sender does). Oracle: no race report and no fatal "
+          "(driver), every upload saw the same channel object and every track is registered (hook VerifChannelState), every 200-answered "
+          "upload stored under its own track with its own bytes, the final MPD lists every track and, reduced to what must not depend on the "
+          "arrival order (per representation: kind, timescale, numbers, (t,d)), equals the sequential run's. Every case starts >= 2 tracks of "
+          "a new channel simultaneously (non-trivial by construction); distinct by hash of the case.",
+     race=True, crash_is_violation=True, quick=dict(shards=2, timeout=500), thorough=dict(shards=8, timeout=1500),
+     assumptions=COMMON + ["interleavings are sampled by the Go scheduler (barriers and repetition raise the odds); absence of races is not established"])
